@@ -88,6 +88,10 @@ def run(ctx):
     chk.rule("R09.2", "the six public Differentiate methods reach the differentiation step only through partial_iter_relaxed")
     chk.rule("R09.4", "partial(i) = partial_nth(i, 1); partial_nth(i, n) = partial_iter(repeat(i).take(n)); partial_iter(s) = partial_iter_relaxed(s, Error) - and the same for the _relaxed variants")
     chk.rule("R09.3", "every Ok return of the inner derivative is var_names_union(result, original).0")
+    chk.rule("R09.5", "the Differentiate methods have one implementation (the provided ones): no expression type overrides them")
+    from rules import c10 as _c10
+    _c10.no_overrides(chk, fb, "R09.5", "expression::partial::Differentiate", {"partial", "partial_relaxed", "partial_nth", "partial_nth_relaxed", "partial_iter", "partial_iter_relaxed"},
+                      "an own implementation bypasses the index validation and the funnel decided by R09.1-R09.4")
     sig = {s["path"]: s for s in fb.raw["sigs"]}
     steps = [p for p, s in sig.items() if len(s["inputs"]) == 3 and s["inputs"][0] == "usize" and "DeepEx<" in s["inputs"][1]
              and "MissingOpMode" in s["inputs"][2] and "DeepEx<" in s["output"] and s["output"].startswith("std::result::Result<")]
